@@ -1,4 +1,5 @@
 """C20 — precomputed_knn is used exactly as if UMAP had computed (and pruned) it."""
+REGEN = ("constants", "registry", "knn")
 import warnings
 
 import numpy as np
@@ -7,9 +8,6 @@ import gen
 import regen as regen_mod
 from common import sparse_to_dict
 
-
-def regen(ctx):
-    regen_mod.regen(ctx)
 
 
 def graph_diff(a, b):
